@@ -84,7 +84,7 @@ def main():
                 print(f"   undecided (exit 2): { {k: v for k, v in und.items()} }"[:900])
             if not viol and not und:
                 print("   silent on all checks")
-            if same and not args.no_copy and (args.no_tests or "passed" in tests):
+            if same and not args.no_copy and (args.no_tests or ("passed" in tests and "failed" not in tests and "error" not in tests)):
                 dst = VERIF / "seeded" / "twins" / f"{m.get('property', 'X')}-{args.round}-{vdir.name}"
                 dst.mkdir(parents=True, exist_ok=True)
                 shutil.copy(patch, dst / "patch.diff")
